@@ -468,6 +468,8 @@ package graphql
 //@   call prepareQuery#4 assert arg1 == typ.Type && arg2 == selectionSet
 //@   call prepareQuery#5 assert arg1 == typ.Type && arg2 == selectionSet
 //@   call dynamic assert arg0 == selection.UnparsedArgs
+// C19: what a union hands down to its member fragments is the __typename selection itself - alias, directives and all
+//@   call append#1 assert selection.Name == "__typename" && arg0 == fragment.SelectionSet.Selections && arg1[0] == selection
 // C15 (time): a (type, selection set) pair is walked at most once per PrepareQuery - the body of the object and union cases
 // runs only after this very invocation has entered the pair into the table, and a later visit of the pair returns at once.
 // The number of walks is therefore bounded by #types x #selection sets, however often a fragment is spread (defect s26).
